@@ -575,7 +575,13 @@ func (f *Fam) checkBegin(before, after *Snapshot, fail func(string, string, stri
 	}
 	// C10: fees of the previous block go to its proposer; awards are minted once
 	fees := before.Bal[feeAddr]
-	if len(after.Bal[feeAddr]) != 0 {
+	// (an award another module queued for the fee collector itself is minted after the fees have been passed on: it is
+	// all the collector may hold afterwards)
+	emptied := len(after.Bal[feeAddr]) == 0
+	if aw, ok := f.awardsQueued[feeAddr]; ok && aw.IsPositive() {
+		emptied = len(after.Bal[feeAddr]) == 1 && balOf(after, feeAddr, Denom).Equal(aw)
+	}
+	if !emptied {
 		fail("fees-forwarded", "C10:collector-not-emptied", fmt.Sprintf("BeginBlock %d: fee collector still holds %s", f.height, coinsStr(after.Bal[feeAddr])))
 	}
 	_, known := before.Vals[f.lastProposer]
